@@ -4,6 +4,7 @@ package main
 // are cut points, calls use the callee contract or are inlined.
 
 import (
+	"strconv"
 	"go/ast"
 	"os"
 	"fmt"
@@ -2093,8 +2094,14 @@ func replaceAtoms(t *Term, facts map[string]*Term) *Term {
 func (w *World) loopClauses(fn *ssa.Function, fc *FuncContract, lp *Loop) []*Clause {
 	if len(fc.LoopsByText) > 0 && !fc.textResolved {
 		fc.textResolved = true
-		heads := loopHeaderTexts(fn)
+		heads, headPos := loopHeaderTexts(fn)
 		li := loopInfoFor(fn)
+		if os.Getenv("GOVC_DEBUG") != "" && li != nil {
+			for _, l := range li.loops {
+				fmt.Fprintf(os.Stderr, "loop %d of %s: header block %d at %s\n", l.ord, fn.Name(), l.header.Index, w.prog.Fset.Position(loopPos(l)))
+			}
+			fmt.Fprintf(os.Stderr, "headers: %v\n", heads)
+		}
 		keys := make([]string, 0, len(fc.LoopsByText))
 		for k := range fc.LoopsByText {
 			keys = append(keys, k)
@@ -2104,14 +2111,38 @@ func (w *World) loopClauses(fn *ssa.Function, fc *FuncContract, lp *Loop) []*Cla
 			cs := fc.LoopsByText[key]
 			match := 0
 			if li != nil && len(heads) == len(li.loops) {
-				for i, h := range heads {
-					if strings.Contains(h, key) {
-						if match != 0 {
-							match = -1
-							break
-						}
-						match = i + 1
+				// `text#k`: the k-th loop (in source order) whose header is exactly text
+				want, nth := key, 0
+				if i := strings.LastIndex(key, "#"); i > 0 {
+					if n, err := strconv.Atoi(key[i+1:]); err == nil {
+						want, nth = key[:i], n
 					}
+				}
+				var exact []int
+				for i, h := range heads {
+					if h == want {
+						exact = append(exact, i+1)
+					}
+				}
+				// `#k` counts in source order
+				sort.Slice(exact, func(a, b int) bool { return headPos[exact[a]-1] < headPos[exact[b]-1] })
+				switch {
+				case nth > 0 && nth <= len(exact):
+					match = exact[nth-1]
+				case nth == 0 && len(exact) == 1:
+					match = exact[0]
+				case nth == 0 && len(exact) == 0:
+					for i, h := range heads {
+						if strings.Contains(h, key) {
+							if match != 0 {
+								match = -1
+								break
+							}
+							match = i + 1
+						}
+					}
+				case nth == 0:
+					match = -1
 				}
 			}
 			if match <= 0 {
@@ -2131,12 +2162,15 @@ func (w *World) loopClauses(fn *ssa.Function, fc *FuncContract, lp *Loop) []*Cla
 	return fc.Loops[lp.ord]
 }
 
-// loopHeaderTexts: the header of every for / range statement of fn in source order (function
-// literals inside fn have their own list).
-func loopHeaderTexts(fn *ssa.Function) []string {
+// loopHeaderTexts: for every natural loop of fn (in ordinal order) the header of the for / range
+// statement it comes from: the innermost loop statement that contains the first positioned
+// instruction of the loop (phis and debug records aside).  Nil if some loop cannot be placed or
+// two loops land on the same statement.
+func loopHeaderTexts(fn *ssa.Function) ([]string, []token.Pos) {
 	syn := fn.Syntax()
-	if syn == nil {
-		return nil
+	li := loopInfoFor(fn)
+	if syn == nil || li == nil {
+		return nil, nil
 	}
 	var body *ast.BlockStmt
 	switch n := syn.(type) {
@@ -2146,27 +2180,59 @@ func loopHeaderTexts(fn *ssa.Function) []string {
 		body = n.Body
 	}
 	if body == nil {
-		return nil
+		return nil, nil
 	}
-	var out []string
+	type astLoop struct {
+		pos, end token.Pos
+		text     string
+	}
+	var loops []astLoop
 	ast.Inspect(body, func(n ast.Node) bool {
 		switch s := n.(type) {
 		case *ast.FuncLit:
 			return false
 		case *ast.RangeStmt:
-			out = append(out, "range "+types.ExprString(s.X))
+			loops = append(loops, astLoop{s.Pos(), s.End(), "range " + types.ExprString(s.X)})
 		case *ast.ForStmt:
 			h := "for"
 			if s.Cond != nil {
 				h += " " + types.ExprString(s.Cond)
 			}
-			out = append(out, h)
+			loops = append(loops, astLoop{s.Pos(), s.End(), h})
 		}
 		return true
 	})
-	return out
+	out := make([]string, len(li.loops))
+	outPos := make([]token.Pos, len(li.loops))
+	used := map[int]bool{}
+	for i, l := range li.loops {
+		first := token.NoPos
+		for b := range l.blocks {
+			for _, in := range b.Instrs {
+				switch in.(type) {
+				case *ssa.Phi, *ssa.DebugRef:
+					continue
+				}
+				if p := in.Pos(); p.IsValid() && (first == token.NoPos || p < first) {
+					first = p
+				}
+			}
+		}
+		best := -1
+		for j, al := range loops {
+			if al.pos <= first && first < al.end && (best < 0 || al.pos >= loops[best].pos) {
+				best = j
+			}
+		}
+		if best < 0 || used[best] {
+			return nil, nil
+		}
+		used[best] = true
+		out[i] = loops[best].text
+		outPos[i] = loops[best].pos
+	}
+	return out, outPos
 }
-
 
 // loopOblName: a loop clause's obligation is named by the loop's ordinal, or by its header key
 // when the clause names the loop that way (stable when other loops come and go).
